@@ -65,3 +65,37 @@ Definition scase : Type := blk * cfg * nat * list (event * sobs).
 
 Definition case_bad_step (c : scase) : nat :=
   let '(anc, cf, np, steps) := c in run_steps cf (init_st np anc) steps 0.
+
+(* ---- Finder correspondence: predicted ancestor height for an honest peer ---- *)
+From Verif Require Import Syncer.Finder.
+
+(** the stub remote answers GetHashByNo with a nil hash (no error) above its best block *)
+Definition stub_remote (rc : chainv) (n : N) : rhash :=
+  match hash_at rc n with Some h => RHash h | None => RNil end.
+
+(** ancestor height reported by FinderResult: >= 0, -1 = none found, -2 = already
+    synchronised (ancestor >= target), -3 = error / ignored answer *)
+Definition finder_expect (lc rc : chainv) (target : N) (fullonly : bool) : Z :=
+  let full (lastAnchor : N) :=
+    let right := ((lastAnchor + 2 ^ 64 - 1) mod 2 ^ 64)%N in
+    match bin_search (S (length lc) * 2 + 140) lc (stub_remote rc) 0 right None with
+    | inl (Some (_, no)) => Z.of_N no
+    | inl None => (-1)%Z
+    | inr _ => (-3)%Z
+    end in
+  if fullonly then full (best_no lc + 1)%N else
+  match lightscan lc target (find_ancestor rc (anchor_hashes lc)) with
+  | LFound _ no => Z.of_N no
+  | LAlreadyDone => (-2)%Z
+  | LIgnored => (-3)%Z
+  | LNone => full (last_anchor lc)
+  end.
+
+Definition fcase : Type := list N * list N * N * bool * Z.
+Definition finder_case_ok (c : fcase) : bool :=
+  let '(lc, rc, target, fullonly, observed) := c in (finder_expect lc rc target fullonly =? observed)%Z.
+Fixpoint bad_indices {A} (ok : A -> bool) (l : list A) (i : nat) : list nat :=
+  match l with
+  | [] => []
+  | x :: r => if ok x then bad_indices ok r (S i) else i :: bad_indices ok r (S i)
+  end.
